@@ -63,8 +63,68 @@ CHECKS = [
               "beyond the index algebra are NOT decided.",
          note=_T + "torch DataLoader visits indices 0..len-1 once.",
          technique=_SA + "evaluation identities for permutations, window descriptors, digit classification, helper inlining with conditional variants"),
+    dict(property_id="C03",
+         text="Decides the autograd call discipline (sum-then-grad, create_graph), the affine component/offset pairing of div / laplacian / jac (incl. precomputed "
+              "offset lists), the index tables of rot / sym_grad / convective / normal_derivative / matrix_div, zero short-circuits and accumulator dtype/device. "
+              "Numerical agreement with analytic derivatives is NOT decided.",
+         note=_T + "Rows of the model output depend only on the same input rows.",
+         technique=_SA + "structural rules on the ast, affine index forms in polynomial normal form, symbolic list evaluation"),
+    dict(property_id="C06",
+         text="Decides operand selection and sign of normals on Boolean boundaries, unit length and perpendicularity of edge normals as polynomial identities "
+              "(in-place column updates modelled), radial normals, sign-definiteness of n·(opposite vertex - edge start) under vertex orientation, and the "
+              "direction constants of interval end points. Outwardness as geometry, NaNs and meshes are NOT decided.",
+         note=_T + "Points passed to normal() lie on the boundary; operands' own normals are outward (induction).",
+         technique=_SA + "symbolic vector evaluation in rational normal form, structural matching"),
+    dict(property_id="C09",
+         text="Decides the contraction axis of the DeepONet output and the parameter/point meshgrid by an axis-role interpretation of reshape/transpose/matmul/"
+              "repeat, the branch/trunk reshape agreement, autograd hygiene of the custom linear Function (only inputs saved, gradients from the required "
+              "operands) and the branch-cache protocol. Numerical equivalence is NOT decided.",
+         note=_T,
+         technique=_SA + "axis-role abstract interpretation, effect/ownership rules"),
+    dict(property_id="C10",
+         text="Decides every primitive measure against the analytic table in rational normal form, non-negativity in a sign domain, the composition rules of "
+              "union/cut/product/translate/rotate through public volume(), the user override, density-to-count conversion, absence of parameter-dependent "
+              "caching, and that flags survive partial evaluation. Documented estimates and third-party measures are NOT decided.",
+         note=_T + "radius > 0, upper >= lower.",
+         technique=_SA + "symbolic tensor evaluation to rational functions, sign domain, taint of cached values"),
+    dict(property_id="C11",
+         text="NARROW: decides only the construction named by the mechanism anchors (radial exponent 1/dim, azimuth, polar law, arclength walk with paired "
+              "side lengths, triangle mirror, union mixture ratio, dependent-product acceptance, LHS strata and per-axis permutation, Normal proposals). "
+              "No distributional statement is decided; an algorithm replacement is UNDECIDED, never a violation.",
+         note=_T + "torch.rand / randperm / Normal are the named laws.",
+         technique=_SA + "rational normal forms with rational exponents, structural pairing rules"),
+    dict(property_id="C14",
+         text="Decides by interprocedural effect analysis that no condition constructor writes into user containers or mutable defaults, that constructors call "
+              "no state-changing method on user objects, that no module-level cache is written, that the periodic condition keeps left/right data apart and "
+              "does not pollute the static side samplers, and that forward writes only allow-listed state. Numerical repeatability is NOT decided.",
+         note=_T + "Unresolvable receivers (user objects) are assumed not to write their arguments.",
+         technique=_SA + "parameter-write effect summaries closed over the resolved call graph, typestate of static samplers"),
+    dict(property_id="C17",
+         text="Decides the constructor round-trip of every Domain.__call__ (every constructor argument forwarded from its evaluated counterpart), survival of "
+              "setter state, registration and fresh-set union of necessary variables (incl. order), purity of __call__ and copy-on-partial-evaluation. "
+              "Equality of sampled values is NOT decided.",
+         note=_T,
+         technique=_SA + "constructor round-trip dataflow, alias/effect rules"),
+    dict(property_id="C18",
+         text="Decides box layout and corner completeness of primitives as min/max reductions over symbolic coordinates, the lattice rules of "
+              "union/intersection/cut/product/translate, all-corner images under linear maps, reduction over parameter rows, consumer layout "
+              "(NormalizationLayer affine map, LHS strata) and call-site/override signature compatibility. Tightness is NOT decided.",
+         note=_T + "Third-party bounds are correct.",
+         technique=_SA + "symbolic reductions over corner sets, affine index forms, call-site binding simulation"),
+    dict(property_id="C19",
+         text="NARROW: decides that learnable state is registered (complete state_dict), that the callbacks save the right object at the right hook under "
+              "distinct names without buffering, that solver hooks leave optimizer/scheduler state alone and restore the step counter, and inventories "
+              "step-written plain state that no checkpoint captures. Everything Lightning does and bit-exact resume are NOT decided.",
+         note=_T + "Lightning restores module/optimizer/scheduler state.",
+         technique=_SA + "ownership and effect inventory, structural hook rules"),
+    dict(property_id="C20",
+         text="Decides that a Fourier layer never writes to (an alias/view of) its input, that between the paired rfftn/irfftn (same axes, norm, s = input shape) "
+              "the spectrum is only padded/truncated and multiplied by the kernel (no re-indexing, no constant mode offsets), and the point-wise structure "
+              "of FNO. Equivariance and resolution consistency as numbers are NOT decided.",
+         note=_T,
+         technique=_SA + "may-alias effect analysis, operation whitelist on a def-use slice"),
 ]
-_PENDING = "check under construction in this round (static rule not yet armed); see DESIGN.md §4"
+_PENDING = "not claimed"
 NOT_APPLICABLE = [
     dict(property_id=f"C{i:02d}", reason=_PENDING) for i in range(1, 21) if f"C{i:02d}" not in {c["property_id"] for c in CHECKS}
 ]
